@@ -304,6 +304,11 @@ func parseSegs(p string) ([]seg, bool) {
 		}
 		out = append(out, seg{items: it})
 	}
+	for i := 1; i < len(out); i++ {
+		if out[i].dstar && out[i-1].dstar {
+			return nil, false // `**/**`: outside the fragment
+		}
+	}
 	return out, true
 }
 
@@ -788,8 +793,9 @@ func (g *gen) tree(comps []string, depth int) []*node {
 	for i := 0; i < n; i++ {
 		nm := lib.Pick(rng, pool)
 		isDirName := !strings.Contains(nm, ".") || strings.HasPrefix(nm, ".") || nm == "c++"
+		isBuildName := contains(g.bn, nm) || nm == "BUILD.plz" // never a directory: a directory named like a BUILD file is outside C21
 		switch x := rng.Intn(100); {
-		case (isDirName && x < 70 || x < 8) && depth < g.depth:
+		case (isDirName && x < 70 || x < 8) && depth < g.depth && !isBuildName:
 			add(&node{name: nm, kind: 'd'})
 		case x < 92:
 			add(&node{name: nm, kind: 'f'})
